@@ -263,6 +263,27 @@ def bad_upd_line(rng, c):
     return "upd %s op=replace pix=%s val=%s" % (c.name, ','.join(map(str, pix)), c.val(rng))
 
 
+def refused_line(rng, c):
+    """`bad` line: a call of a kind the library refuses for this kind of map (see real.py BAD_KINDS)"""
+    ks = ['not_ndarray', 'ranges_array', 'getitem_flt', 'getitem_listflt', 'getitem_type',
+          'setitem_flt', 'setitem_listflt', 'setitem_type', 'sop_array', 'deg_finer']
+    if c.kind == 'wide':
+        ks += ['wide_scalar', 'sop_wide_const', 'sop_list_float', 'sop_wide_add', 'deg_wide_mean']
+    else:
+        ks += ['sop_list_nonwide', 'chkpos_nonint']
+    if c.kind != 'rec':
+        ks += ['getitem_str']
+    if c.kind == 'plain' and c.is_int:
+        ks += ['int_float', 'sop_int_fltconst']
+    if c.kind == 'plain' and c.is_flt:
+        ks += ['flt_int', 'sop_bit_on_float', 'deg_wmean_noweights', 'deg_weights_notmap', 'deg_weights_int']
+    if c.kind in ('plain', 'packed', 'wide'):
+        ks += ['ranges_ring']
+    k = rng.choice(ks)
+    pix = rand_pixels(rng, c, n=rng.choice([1, 2, 3]), unique=True) or [0]
+    return "bad %s k=%s pix=%s val=%s" % (c.name, k, ','.join(map(str, pix)), c.val(rng))
+
+
 def read_line(rng, c):
     """A read through one of the read paths of HealSparseMap."""
     path = rng.choice(['pix', 'getitem_arr', 'getitem_list', 'getitem_int', 'slice', 'pos', 'pix', 'vm'])
